@@ -76,7 +76,7 @@ def short(k):
     return k.replace("crate::", "")
 
 
-def run(ctx, config="all"):
+def run(ctx, config="all", floors=True):
     rep = Report("R-LIMBS", "every public constant/function that can bring a Uint<B,L>/Bits<B,L> into existence "
                  "without receiving one reaches (in the call graph restricted to edges that keep (B,L)) a body whose "
                  "required_consts mention Uint::<B,L>::LIMBS, whose evaluation asserts LIMBS == ceil(BITS/64)")
@@ -302,6 +302,7 @@ def run(ctx, config="all"):
                           "producer reaches no body that evaluates Uint::LIMBS for its own (%s, %s), so a value of an "
                           "ill-formed Uint type can be obtained through it; explored: %s" % (
                               p[0], p[1], ", ".join(sorted(short(k) for k, _ in seen)[:8])))
-    rep.floor("producers", len(producers), 110)
-    rep.floor("bodies_mentioning_LIMBS", n_check, 3)
+    if floors:
+        rep.floor("producers", len(producers), 110)
+        rep.floor("bodies_mentioning_LIMBS", n_check, 3)
     return rep
